@@ -45,8 +45,8 @@ Theorem c02_never_self : forall s st,
   run repaired s = Ok st -> forall h k v, In v (field_of st h k) -> v <> VOrig h.
 Proof.
   intros s st H h k v Hv Heq.
-  pose proof (run_core_top repaired (normalise repaired s) st eq_refl H) as [HI _].
-  pose proof (i_noself st HI h k v Hv) as Hs. subst v. cbn [is_self] in Hs. rewrite Nat.eqb_refl in Hs. discriminate.
+  pose proof (run_core_top (P:=anyk) repaired (normalise repaired s) st eq_refl H) as [HI _].
+  pose proof (i_noself st HI h k v I Hv) as Hs. subst v. cbn [is_self] in Hs. rewrite Nat.eqb_refl in Hs. discriminate.
 Qed.
 
 (* a point that could only be satisfied by its own holder has no candidate at all: it is reported
@@ -123,3 +123,9 @@ Example c02_example_reentrant :
   | Fail _ _ => False
   end.
 Proof. vm_compute. split; reflexivity. Qed.
+
+(* no injection point of the extended model holds its own holder either *)
+From IocVerif Require Import Proofs.FactoryXInv.
+Theorem c02_never_self_extended : forall s x o st,
+  run_xt repaired s x = (o, Ok st) -> forall h k v, k < 100 -> In v (field_of st h k) -> v <> VOrig h.
+Proof. intros s x o st H. exact (run_xt_never_self repaired s x o st eq_refl H). Qed.
